@@ -735,7 +735,7 @@ impl Property for C12 {
     }
 
     fn rule_text(&self) -> String {
-        "ClientSim histories over start / stop / stop-with-DISCONNECT / close / publish requests interleaved with the environment events enabled in the current client state (connect ok / refused / timed out; service due; write complete / partial / error; read EOF / error; broker answer incl. failing CONNACK; garbage; reconnect timer), followed by a fair suffix of at most 200 steps (connections succeed, writes complete, broker answers, the peer closes after a DISCONNECT); oracle: event grammar (Attempt (Failure | Success Disconnection))* with Stopped only between groups and never twice without an attempt, state transitions never fail (the loop never dies), a 12-line model of the requested state predicts the final state (Stopped with exactly one Stopped event and no later attempt / Connected / Shutdown with nothing afterwards); non-trivial = a request during the CONNECT/CONNACK handshake or while connecting, a partial write, a write error or a dropped connection; distinct = hash of (event stream, request marks)".to_string()
+        "ClientSim histories over start / stop / stop-with-DISCONNECT (2 bytes, or 6 kB so that it can be half written in the 4096-byte buffer) / close / publish requests interleaved with the environment events enabled in the current client state (connect ok / refused / timed out; service due; write complete / partial / error; read EOF / error; broker answer incl. failing CONNACK; garbage; reconnect timer), followed by a fair suffix of at most 200 steps (connections succeed, writes complete, broker answers, the peer closes after a DISCONNECT); oracle: event grammar (Attempt (Failure | Success Disconnection))* with Stopped only between groups and never twice without an attempt, state transitions never fail (the loop never dies), a 12-line model of the requested state predicts the final state (Stopped with exactly one Stopped event and no later attempt / Connected / Shutdown with nothing afterwards); non-trivial = a request during the CONNECT/CONNACK handshake or while connecting, a partial write, a write error or a dropped connection; distinct = hash of (event stream, request marks)".to_string()
     }
 
     fn assumptions(&self) -> Vec<String> {
